@@ -514,6 +514,38 @@ def _kernels(ctx) -> None:
     if ev.conds[len(km.loop.conds):] or ev.value != ("idx", km.loop.id) or ev.loops != (km.loop.id,):
         problems.append("not every column gets exactly one accessor mapped to its own position")
     ctx.ob("d.kernels-agree", m, "map-kernel", not problems, f"map kernel: {km.forms}", m.node, message="; ".join(problems))
+    # item access t['<accessor>'] compares the key with the accessor forms it rebuilds itself: the form of a repeated name
+    # (<base>__<position>, no third underscore after a base that ends in one) must be the very term the map kernel stores
+    from .c07 import _name_forms, _walk
+    from ..symx import subterms as _subt
+
+    from ..symx import const as _const, show as _show, simplify as _simplify, substitute as _subst
+    single, multi = _name_forms(prog)
+    get_forms = set()
+    for frm in single | multi:
+        for y in _walk(frm):
+            if isinstance(y, tuple) and y and y[0] == "fstr" and any(z == ("IDX",) for z in _walk(y)) \
+                    and any(isinstance(z, tuple) and z[:2] == ("call", ("name", "_sanitize_user_name")) for z in _walk(y)):
+                get_forms.add(y)
+    # ... evaluated like the kernel's: in the two situations of a repeated name (its sanitised base ends in '_' or not)
+    get_shown = {}
+    for g in get_forms:
+        sans_ = list(dict.fromkeys(z for z in _walk(g) if isinstance(z, tuple) and z[:2] == ("call", ("name", "_sanitize_user_name"))))
+        for sit in ("repeat", "repeat-ending-underscore"):
+            t_ = g
+            for s_ in sans_:
+                t_ = _simplify(t_, {("call", ("attr", s_, "endswith"), (_const("_"),), ()): sit == "repeat-ending-underscore", s_: True})
+                t_ = _subst(t_, {s_: ("name", "SAN")})
+            t_ = _simplify(_subst(t_, {("IDX",): ("name", "IDX")}), {})
+            get_shown.setdefault(sit, set()).add(_show(t_, km.it))
+    want = {sit: {km.forms.get(sit)} for sit in ("repeat", "repeat-ending-underscore")}
+    map_forms = want
+    get_forms = get_shown if get_forms else {}
+    g_ = prog.func("table.Table.__getitem__")
+    ctx.ob("d.kernels-agree", g_, "getitem-form", bool(get_forms) and get_forms == map_forms,
+           f"t['<base>__<n>'] is matched by the map kernel's own forms {get_forms}", g_.node,
+           message="Table.__getitem__ rebuilds the accessor of a repeated name differently from the accessor map: for a base that ends in '_' "
+                   "(a reserved or keyword name: sum_ -> sum__1) t['sum__1'], sort_by('sum__1') miss the column that t.sum__1 finds")
     problems = list(kh.problems)
     ith = kh.it
     cols_param = ("param", h.params[0])
@@ -795,6 +827,8 @@ def _untouched(ctx) -> None:
 
 _T, _N, _D = "table", "naming", "display"
 MUTANTS = [
+    dict(id="getitem-accessor-form-triple-underscore", module=_T, count=2, nth=0,
+         old="{'' if base.endswith('_') else '_'}_{idx}\"", new="__{idx}\"", rules=["d.kernels-agree"], desc="reverts the fix for t['sum__1']"),
     dict(id="regex-keeps-spaces", module=_N, old="	sanitized = re.sub(r'[^a-z0-9_]+', '_', name)", new="	sanitized = re.sub(r'[^a-z0-9_ ]+', '_', name)",
          rules=["a.sanitiser"]),
     dict(id="regex-not-collapsing", module=_N, old="	sanitized = re.sub(r'[^a-z0-9_]+', '_', name)", new="	sanitized = re.sub(r'[^a-z0-9_]', '_', name)",
